@@ -115,6 +115,7 @@ class C10(PropBase):
         w = st.w
         k = op["op"]
         if k != "call":
+            closed_before = k == "deliver" and op.get("to") in w.s and w.s[op["to"]].model.st == "CL"
             ev = w.apply(op)
             if ev.get("noop"):
                 return
@@ -122,6 +123,11 @@ class C10(PropBase):
             if k == "deliver":
                 if ev.get("followed"):
                     st.hit("mishandled_delivery_followed")
+                elif closed_before:
+                    # input on a session that the documented state machine has closed: whether it is refused is C08's
+                    # statement; C10 goes on, because whatever such a session emits afterwards answers no open request
+                    if ev["ok"]:
+                        st.hit("closed_session_accepted_input")
                 else:
                     self.diverge_unless(ev, "delivery")
             return
@@ -208,7 +214,7 @@ class C10(PropBase):
                     st.x["last_final"] = (m, a)
                 if m == "search_result_done" and pre.kinds.get(a["id"]) != "SearchRequest":
                     st.hit("done_for_nonsearch_id")
-        if not st.reach.get("mishandled_delivery_followed"):
+        if not st.reach.get("mishandled_delivery_followed") and pre.st != "CL":
             self.diverge_unless(ev, "call")
 
     def nontrivial(self, st):
